@@ -183,13 +183,15 @@ structure UploadList where
   nextId    : Option Nat
 deriving Repr, DecidableEq
 
-/-- the `done:` loop: is there a further (non-grouped) matching key? -/
-def moreAfter (p : Prefix) : List (Key × List Nat) → Option (Key × Option Nat)
+/-- the `done:` loop: is there a further matching key that would add something to the listing —
+    an upload, or a common prefix not reported yet (`seen`)? -/
+def moreAfter (p : Prefix) (seen : List Bytes) : List (Key × List Nat) → Option (Key × Option Nat)
   | [] => none
   | (k, ids) :: rest =>
     match p.match_ k with
     | some (false, _) => some (k, ids.head?)
-    | _ => moreAfter p rest
+    | some (true, mp) => if seen.contains mp then moreAfter p seen rest else some (k, ids.head?)
+    | none => moreAfter p seen rest
 
 /-- the main loop of `ListMultipartUploads`.  `pending` = the upload id the marker names and
     that has not been reached yet (`firstFound = false`). -/
@@ -226,7 +228,7 @@ def listUploadsLoop (p : Prefix) (limit : Int) :
         let (acc2, cnt2, stop) := take ids' cnt acc
         if stop then
           if acc2.truncated then acc2
-          else match moreAfter p rest with
+          else match moreAfter p acc2.prefixes rest with
             | some (nk, nid) => { acc2 with truncated := true, nextKey := nk, nextId := nid }
             | none => acc2
         else listUploadsLoop p limit rest pending' cnt2 acc2
